@@ -1045,6 +1045,20 @@ def run_c13(ctx):
         # the element goes to vec[i] with i the inner loop variable, pushed once per outer iteration
         ok = depth == 2 and const_d and param_l and starts_zero and len(bounds) == 2
         det += "; nesting depth of next(): %d; bounds const-D:%s param-L:%s from zero:%s" % (depth, const_d, param_l, starts_zero)
+        # the element is stored at component i (the innermost loop variable) and the vector is pushed once per outer iteration
+        inner_head = [h for h in range_heads if any(h[0] in bl and nb in bl for _h, bl in lps)]
+        inner_head = sorted(inner_head, key=lambda h: sum(1 for _h, bl in lps if h[0] in bl))[-1] if inner_head else None
+        store_ok = push_ok = False
+        if inner_head is not None:
+            ivar = gv.root_place({"l": inner_head[4]["dest"]["l"], "p": []}).with_path(("as:Some", "0"))
+            for bi2, t2 in gauss.calls():
+                if callee_is(t2, trait="IndexMut", name="index_mut") and "Vector" in (t2["callee"].get("self_ty") or "") and len(t2["args"]) == 2:
+                    if gv.root(t2["args"][1]) == ivar and sum(1 for _h, bl in lps if bi2 in bl) == 2:
+                        store_ok = True
+            pushes = [(bi2, t2) for bi2, t2 in gauss.calls() if (t2.get("callee") or {}).get("name") == "push"]
+            push_ok = len(pushes) == 1 and sum(1 for _h, bl in lps if pushes[0][0] in bl) == 1
+        ok = ok and store_ok and push_ok
+        det += "; stored at vec[i]: %s; one push per loop vector: %s" % (store_ok, push_ok)
     ctx.ob("C13-c", "one element is taken per innermost (component) iteration, loop-major", ok, gauss.path, "gaussian-consumption", detail=det)
 
     def d():
